@@ -86,7 +86,7 @@ func gTypeCheck(c *Ctx, rule string) {
 		}
 	}
 	c.count("skeletons_type_checked", nchecked)
-	c.floor(rule, 40)
+	c.floor(rule, 25)
 }
 
 func orDefault(s, d string) string {
